@@ -175,6 +175,27 @@ def generate(rng, tier):
                 s.meta[lines[0]] = {"twin": lines[1], "dm": bases[1] - bases[0], "ds": top2 - top1, "arch": arch, "deps": [lines[1]],
                                     "code": [bases[0], bases[0] + prog["end"] + 0x100]}
             s.tags[lines[0]] = "%s:macho:%s:%s" % (arch, f.shape, sc1["frames"][0]["phase"])
+        # ... and threads stopped inside __stubs / __stub_helper (first frames): the section ranges are stated addresses
+        # like everything else of the image (seeded change C08-11 took them relative to where the image is mapped)
+        lo, hi = prog["stubs"]
+        hlo, hhi = prog["helper"]
+        if arch == "x86":
+            hb = [hlo + o for o in (0, 7, 9, 0xf)] + [hlo + 0x10 + 10 * k + d for k in range((hhi - hlo - 0x10) // 10) for d in (0, 5)]
+        else:
+            hb = list(range(hlo, hhi, 4))
+        for a in list(range(lo, hi, 6 if arch == "x86" else 4))[:3] + hb[:12]:
+            spv = 0x7000 + 16 * rng.below(4)
+            lines = []
+            for which in range(2):
+                mid = "T%d" % which
+                if a == lo:
+                    s.mem(mid, [(0x7000 + 8 * i, bases[which] + 0x1000 + 0x10 * i) for i in range(32)])
+                regs = s.regs_x86(bases[which] + a, spv, 0x7100) if arch == "x86" else s.regs_a64(mask, bases[which] + 0x1234, spv, 0x7100)
+                s.add("newcache C")
+                lines.append(s.add("trace U%d C %s %s %s 2" % (which, hx(bases[which] + a), regs, mid)))
+            s.meta[lines[0]] = {"twin": lines[1], "dm": bases[1] - bases[0], "ds": 0, "arch": arch, "deps": [lines[1]],
+                                "code": [bases[0], bases[0] + prog["end"] + 0x100], "nostackfp": True}
+            s.tags[lines[0]] = "%s:macho:%s" % (arch, "stubs" if a < hi else "helper")
         out.append(("macho-reloc-%s-%d" % (arch, pi), s))
     return out
 
